@@ -8,8 +8,8 @@ package main
 //     (`policies` map in uapolicy/securitypolicy.go, URI constants in ua/enums.go)
 //   * the local constants minAsymmetricKeyLength / maxAsymmetricKeyLength and
 //     the *guards* of each constructor (every `if cond { return nil, err }`),
-//     translated to a Lean Bool function of (hasLocal, localSize, hasRemote,
-//     remoteSize)
+//     translated to a Lean Bool function of (hasLocal, localBits, hasRemote,
+//     remoteBits); Size() is sizeOfBits of the bit length, N.BitLen() the bit length
 //   * the type and hash of the `encrypt:` / `signature:` fields and the
 //     constant subtracted in `plainttextBlockSize: remoteKeySize - X`
 //   * the constant the Encrypt method of that type subtracts from the key size
@@ -137,7 +137,7 @@ func asymEval(e ast.Expr, scopes ...map[string]ast.Expr) (int64, error) {
 }
 
 // asymBool translates a guard condition into a Lean Bool term over
-// hasLocal localSize hasRemote remoteSize.
+// hasLocal localBits/localSize hasRemote remoteBits/remoteSize.
 func asymBool(e ast.Expr, scopes ...map[string]ast.Expr) (string, error) {
 	switch x := e.(type) {
 	case *ast.ParenExpr:
@@ -194,16 +194,33 @@ func asymBool(e ast.Expr, scopes ...map[string]ast.Expr) (string, error) {
 
 func asymInt(e ast.Expr, scopes ...map[string]ast.Expr) (string, error) {
 	if c, ok := e.(*ast.CallExpr); ok && len(c.Args) == 0 {
-		// localKey.PublicKey.Size() / remoteKey.Size()
-		if sel, ok := c.Fun.(*ast.SelectorExpr); ok && sel.Sel.Name == "Size" {
-			switch y := sel.X.(type) {
-			case *ast.Ident:
-				if y.Name == "remoteKey" {
-					return "remoteSize", nil
+		// key size in bytes: localKey.PublicKey.Size() / localKey.Size() / remoteKey.Size()
+		// key size in bits:  localKey.PublicKey.N.BitLen() / localKey.N.BitLen() / remoteKey.N.BitLen()
+		if sel, ok := c.Fun.(*ast.SelectorExpr); ok {
+			x := sel.X
+			suffix := ""
+			switch sel.Sel.Name {
+			case "Size":
+				suffix = "Size"
+			case "BitLen":
+				n, ok := x.(*ast.SelectorExpr)
+				if !ok || n.Sel.Name != "N" {
+					return "", fmt.Errorf("BitLen() of something that is not <key>.N")
 				}
-			case *ast.SelectorExpr:
-				if id, ok := y.X.(*ast.Ident); ok && id.Name == "localKey" && y.Sel.Name == "PublicKey" {
-					return "localSize", nil
+				x = n.X
+				suffix = "Bits"
+			default:
+				return "", fmt.Errorf("call %s() outside the translatable fragment", sel.Sel.Name)
+			}
+			if y, ok := x.(*ast.SelectorExpr); ok && y.Sel.Name == "PublicKey" {
+				x = y.X // localKey.PublicKey.… = localKey.… (embedded)
+			}
+			if id, ok := x.(*ast.Ident); ok {
+				switch id.Name {
+				case "remoteKey":
+					return "remote" + suffix, nil
+				case "localKey":
+					return "local" + suffix, nil
 				}
 			}
 		}
@@ -514,7 +531,7 @@ func genAsym(repo string) (string, error) {
 		}
 		n := "asym" + en.name
 		names = append(names, n)
-		fmt.Fprintf(&sb, "/-- %s (uapolicy); Encrypt pad from %s.Encrypt (%s) -/\ndef %s : AsymRow :=\n  { name := %q, scheme := %s, sigScheme := %s, encPad := %d, ptPad := %d,\n    minKeyBytes := %d, maxKeyBytes := %d, nonceLength := %d,\n    accept := fun hasLocal localSize hasRemote remoteSize => %s }\n\n",
+		fmt.Fprintf(&sb, "/-- %s (uapolicy); Encrypt pad from %s.Encrypt (%s) -/\ndef %s : AsymRow :=\n  { name := %q, scheme := %s, sigScheme := %s, encPad := %d, ptPad := %d,\n    minKeyBytes := %d, maxKeyBytes := %d, nonceLength := %d,\n    accept := fun hasLocal localBits hasRemote remoteBits =>\n      let localSize := sizeOfBits localBits\n      let remoteSize := sizeOfBits remoteBits\n      %s }\n\n",
 			en.ctor, et, encSrc, n, en.name, scheme, sig, encPad, ptPad, minB, maxB, nonce, acc)
 	}
 	fmt.Fprintf(&sb, "/-- every entry of the `policies` map -/\ndef asymRows : List AsymRow := [%s]\n\nend Opcua.Gen\n", strings.Join(names, ", "))
